@@ -14,7 +14,7 @@ Rows == ndJsonDeserialize(IOEnv.TRACE)
 RowOk(r) ==
   \/ /\ r.dropped = r.nd
      /\ r.dispatched = (IF r.crate = "tcp" THEN r.nq ELSE r.nq + r.nd - r.unroutable)
-     /\ r.taken = r.nq
+     /\ (r.gone \/ r.taken = r.nq)          \* (when the consumer of the results has gone away, workers leave: what is queued then stays)
      /\ r.worker_dropped = r.nd - r.unroutable
   \/ PrintT("BAD " \o ToJson(r))
 VARIABLES phase
